@@ -123,7 +123,15 @@ fn one_case(rep: &mut Report, rng: &mut Rng, idx: u64) {
         delete_roller: rng.chance(1, 12),
     };
     let pattern_abs = format!("{}/{}", root.to_str().unwrap(), c.pattern_rel);
-    let active = root.join("app.log");
+    // now and then the file to roll lives on another file system than the archives (rename fails with EXDEV)
+    let other_mount = if rng.chance(1, 8) { crate::fsutil::scratch_on_another_mount("c07x") } else { None };
+    let active = match &other_mount {
+        Some(o) => {
+            rep.count("cases_with_the_rolled_file_on_another_mount", 1);
+            o.path.join("app.log")
+        }
+        None => root.join("app.log"),
+    };
 
     // ---- initial state: archives in and around the window, bystanders
     let mut initial: BTreeMap<String, Vec<u8>> = BTreeMap::new(); // rel path -> raw bytes
@@ -152,6 +160,15 @@ fn one_case(rep: &mut Report, rng: &mut Rng, idx: u64) {
     for name in ["app.1.log.bak", "app.01.log", "app..log", "app.log.0", "other.txt", "arch/readme", "envdir/keep.me", "app.-1.log", "deep/er/app-x"] {
         if rng.chance(1, 2) && !initial.contains_key(name) {
             initial.insert(name.to_owned(), gen_content(rng, name));
+        }
+    }
+    // bystanders whose names are a managed name plus a suffix that scratch files like to use
+    for i in [b, b + 1] {
+        for suffix in [".tmp", ".part", "~", ".bak", ".1"] {
+            let name = format!("{}{}", archive_rel(&c.pattern_rel, i), suffix);
+            if rng.chance(1, 4) && !initial.contains_key(&name) {
+                initial.insert(name.clone(), gen_content(rng, &name));
+            }
         }
     }
     initial.remove("app.log");
@@ -309,7 +326,7 @@ fn one_case(rep: &mut Report, rng: &mut Rng, idx: u64) {
                 }
             }
         }
-        if after.contains_key("app.log") {
+        if after.contains_key("app.log") || active.exists() {
             fail(rep, "C07:rolled-file-still-present", "the rolled file still exists at its original path".into());
             return;
         }
